@@ -1,2 +1,288 @@
-(* C11 — placeholder while the proofs are being written *)
-From Ka Require Import Model.Lexer.
+(* C11 — Lexing is a faithful longest-match segmentation with exact literal values.
+   Statements only; each is closed by [exact <lemma>].
+
+   The lexer is Model/Lexer.v ([ka_tokenise] = [tokenise] on the regenerated CONST_TOKENS /
+   ALPHA_TOKENS).  Texts are lists of Unicode code points of ANY length; token spans are
+   code-point indices.  str.isspace / isalpha / isnumeric are arbitrary functions subject only
+   to [classes_ok] (Lexer.class_ok_b at every character: whitespace is not significant, not
+   alphabetic, not numeric; ASCII letters are alphabetic; an alphabetic significant character
+   is an identifier character; identifier-start characters are not numeric; ASCII digits are
+   numeric; '.' is not) — the harness checks this on all 1,114,112 code points of CPython.
+   The table facts (GenFacts/TokenTableFacts.v) are re-proved against the live table each run. *)
+From Coq Require Import NArith ZArith QArith Qpower List Bool.
+From Ka Require Import Model.Lexer Proofs.LexerProofs GenFacts.TokenTableFacts.
+Import ListNotations.
+Local Open Scope nat_scope.
+Local Open Scope list_scope.
+
+(* The scan loop always terminates within its fuel (1 + length of the input). *)
+Theorem C11_total : forall isspace isalpha isnumeric s i,
+  ka_tokenise isspace isalpha isnumeric s <> LErr LexOutOfFuel i.
+Proof. exact (fun sp al nu => tokenise_never_out_of_fuel sp al nu gen_ctoks gen_atoks ctoks_nonempty). Qed.
+
+(* Faithful segmentation: spans are increasing, non-empty and inside the input; everything
+   between them (and before the first, after the last) is whitespace; gaps and lexemes
+   reassemble the input exactly; each token's lexeme is what its tag says (a constant token
+   is its own spelling, an identifier's name is its lexeme, a string/instant value is the
+   lexeme without its delimiters); and every token is what read_token returns at its span. *)
+Theorem C11_faithful : forall isspace isalpha isnumeric s ts,
+  ka_tokenise isspace isalpha isnumeric s = LOk ts ->
+  spans_ok 0 (List.length s) ts
+  /\ gaps_ws isspace s 0 ts
+  /\ reassemble s 0 ts = s
+  /\ (forall t, In t ts -> lexeme_ok gen_ctoks (sub s (t_begin t) (t_end t)) (t_tag t) (t_val t))
+  /\ (forall t, In t ts -> token_at isalpha isnumeric gen_ctoks gen_atoks s t).
+Proof. exact (fun sp al nu => tokenise_faithful_full sp al nu gen_ctoks gen_atoks ctoks_nonempty). Qed.
+
+(* Whitespace insensitivity.  [in_gap 0 ts (length s) p]: position p is before the first
+   token, between two consecutive tokens, or after the last.  Inserting any whitespace string
+   there gives the same sequence of (tag, value).  NO side condition on the tokens is needed:
+   the cases where the lexer does look past a token ("1." before ".", "to" before a letter,
+   "1" before "e5", "<" before "=") are exactly the cases where the position is not a boundary
+   of the tokenisation of [s]; the proof shows that a whitespace character at a boundary can
+   never make a longer match succeed nor an accepted match fail (LexerProofs.read_token_ins,
+   read_num_ins: the only sensitive spot, between the two dots of "1..", lies inside the
+   token ".."). *)
+Theorem C11_ws_insensitive : forall isspace isalpha isnumeric, classes_ok isspace isalpha isnumeric ->
+  forall ws s ts a b,
+  ka_tokenise isspace isalpha isnumeric s = LOk ts -> s = a ++ b ->
+  in_gap 0 ts (List.length s) (List.length a) ->
+  Forall (fun c => isspace c = true) ws ->
+  exists ts', ka_tokenise isspace isalpha isnumeric (a ++ ws ++ b) = LOk ts'
+              /\ map untag ts' = map untag ts
+              /\ in_gap 0 ts' (List.length ws + List.length s) (List.length a).
+Proof.
+  exact (fun sp al nu Hc => tokenise_ws_insert sp al nu gen_ctoks gen_atoks Hc ctoks_nonempty
+                              atoks_are_the_alphabetic_ctoks ctoks_head_is_range).
+Qed.
+
+(* ... and any number of such insertions, each at a boundary of the then-current tokenisation. *)
+Theorem C11_ws_insensitive_iter : forall isspace isalpha isnumeric, classes_ok isspace isalpha isnumeric ->
+  forall s s', ws_steps isspace isalpha isnumeric gen_ctoks gen_atoks s s' ->
+  forall ts, ka_tokenise isspace isalpha isnumeric s = LOk ts ->
+  exists ts', ka_tokenise isspace isalpha isnumeric s' = LOk ts' /\ map untag ts' = map untag ts.
+Proof.
+  exact (fun sp al nu Hc => tokenise_ws_steps sp al nu gen_ctoks gen_atoks Hc ctoks_nonempty
+                              atoks_are_the_alphabetic_ctoks ctoks_head_is_range).
+Qed.
+
+(* Longest constant token.  In the regenerated table no token listed earlier is a proper
+   prefix of a later one ([ctoks_strict_prefix_order]); hence the first table hit at a
+   position is the longest table entry that matches there (with the keyword-boundary test). *)
+Theorem C11_table_prefix_order : order_exceptions gen_ctoks = [].
+Proof. exact ctoks_strict_prefix_order. Qed.
+
+Theorem C11_longest_const : forall isspace isalpha isnumeric, classes_ok isspace isalpha isnumeric ->
+  forall r t n v, ka_read_token isalpha isnumeric r = RTok (TConst t) n v ->
+  n = List.length t /\ In t gen_ctoks /\ entry_hit isalpha gen_atoks t r = true
+  /\ forall t', In t' gen_ctoks -> entry_hit isalpha gen_atoks t' r = true ->
+                List.length t' <= List.length t.
+Proof.
+  exact (fun sp al nu Hc => const_token_longest sp al nu gen_ctoks gen_atoks Hc ctoks_order_ok).
+Qed.
+
+(* Maximal munch: an identifier token extends to the first non-identifier character; a number
+   token is never followed by a digit (its digit runs are not cut short). *)
+Theorem C11_maximal_munch : forall isspace isalpha isnumeric s ts t,
+  ka_tokenise isspace isalpha isnumeric s = LOk ts -> In t ts ->
+  (t_tag t = TVar -> hd_fails ident_char (skipn (t_end t) s))
+  /\ (t_tag t = TNum -> hd_fails is_digit (skipn (t_end t) s)).
+Proof. exact (fun sp al nu => tokenise_maximal_munch sp al nu gen_ctoks gen_atoks ctoks_nonempty). Qed.
+
+Theorem C11_maximal_munch_ident : forall isalpha isnumeric r n v,
+  ka_read_token isalpha isnumeric r = RTok TVar n v ->
+  v = VText (firstn n r) /\ forallb ident_char (firstn n r) = true
+  /\ (exists c cs, firstn n r = c :: cs /\ ident_start c = true)
+  /\ hd_fails ident_char (skipn n r).
+Proof. exact (fun al nu => ident_maximal al nu gen_ctoks gen_atoks). Qed.
+
+Theorem C11_maximal_munch_number : forall r n v, read_num r = NOk n v ->
+  1 <= n <= List.length r /\ hd_fails is_digit (skipn n r).
+Proof. exact number_maximal. Qed.
+
+(* Literal values.  [pos_value base digits] is positional notation (sum of digit_i * base^(number
+   of digits after it)), defined independently of the lexer's left-to-right accumulation. *)
+(* integers: for every non-empty digit string followed by something that cannot continue a number *)
+Theorem C11_int_value : forall isspace isalpha isnumeric, classes_ok isspace isalpha isnumeric ->
+  forall A rest, forallb is_digit A = true -> A <> [] -> number_stop rest ->
+  ka_read_token isalpha isnumeric (A ++ rest)
+  = RTok TNum (List.length A) (VLit (LInt (pos_value 10 (map dval A)))).
+Proof. exact (fun sp al nu Hc => int_token sp al nu gen_ctoks gen_atoks Hc). Qed.
+
+(* 0x / 0o / 0b / 0d integers: the value in the stated base when every digit is below the base,
+   BadNumberError otherwise — for every hex-digit string *)
+Theorem C11_based_value : forall bc hs rest, is_base_char bc = true -> hs <> [] ->
+  forallb is_hex hs = true -> hd_fails is_hex rest ->
+  read_num (48%N :: bc :: hs ++ rest)
+  = if forallb (fun c => (hex_val c <? base_of bc)%Z) hs
+    then NOk (2 + List.length hs) (LInt (pos_value (base_of bc) (map hex_val hs)))
+    else NBad.
+Proof. exact based_value. Qed.
+
+(* integer mantissa, scientific notation: exactly m * 10^(+-k), as an int or a reduced Fraction *)
+Theorem C11_sci_value : forall A sg es rest, forallb is_digit A = true -> A <> [] ->
+  forallb is_digit es = true -> es <> [] -> hd_fails is_digit rest -> sign_ok sg ->
+  exists v, read_num (A ++ ch_e :: sg ++ es ++ rest)
+            = NOk (List.length A + (1 + List.length sg + List.length es)) v
+    /\ lit_exact v
+    /\ lit_Q v == inject_Z (pos_value 10 (map dval A))
+                  * Qpower 10 (if sign_neg sg then (- pos_value 10 (map dval es))%Z
+                               else pos_value 10 (map dval es)).
+Proof. exact sci_value. Qed.
+
+(* decimals.  PARTIAL: the model's value is the exact rational of the spelling (tagged LFlt);
+   that the implementation's double is within relative 1e-15 of it is the correctly-rounded
+   float() of CPython — external, tied by the correspondence run, not proved here.  Proved:
+   one token over the whole spelling, the exact rational, and BadNumberError exactly when
+   that rational rounds to infinity. *)
+Theorem C11_decimal_value_partial : forall D1 D2 rest,
+  forallb is_digit D1 = true -> forallb is_digit D2 = true -> is_nil D1 && is_nil D2 = false ->
+  hd_fails is_digit rest -> (D2 = [] -> starts_dot rest = false) -> exp_match rest = None ->
+  let q0 := decimal_exact D1 D2 None in
+  ((flt_overflow <= q0)%Q /\ read_num (D1 ++ ch_dot :: D2 ++ rest) = NBad)
+  \/ (~ (flt_overflow <= q0)%Q /\ exists q, q == q0 /\
+        read_num (D1 ++ ch_dot :: D2 ++ rest) = NOk (List.length D1 + 1 + List.length D2) (LFlt q)).
+Proof. exact decimal_value. Qed.
+
+Theorem C11_decimal_sci_value_partial : forall D1 D2 sg es rest,
+  forallb is_digit D1 = true -> forallb is_digit D2 = true -> is_nil D1 && is_nil D2 = false ->
+  forallb is_digit es = true -> es <> [] -> hd_fails is_digit rest -> sign_ok sg ->
+  let q0 := decimal_exact D1 D2 (Some (sign_neg sg, es)) in
+  let n := List.length D1 + 1 + List.length D2 + (1 + List.length sg + List.length es) in
+  ((flt_overflow <= q0)%Q /\ read_num (D1 ++ ch_dot :: D2 ++ ch_e :: sg ++ es ++ rest) = NBad)
+  \/ (~ (flt_overflow <= q0)%Q /\ exists q, q == q0 /\
+        read_num (D1 ++ ch_dot :: D2 ++ ch_e :: sg ++ es ++ rest) = NOk n (LFlt q)).
+Proof. exact decimal_sci_value. Qed.
+
+(* a..b for ALL non-empty digit strings a, b: number, range, number *)
+Theorem C11_range_lex : forall isspace isalpha isnumeric, classes_ok isspace isalpha isnumeric ->
+  forall A B, forallb is_digit A = true -> A <> [] -> forallb is_digit B = true -> B <> [] ->
+  ka_tokenise isspace isalpha isnumeric (A ++ [ch_dot; ch_dot] ++ B)
+  = LOk [ mkTok TNum 0 (List.length A) (VLit (LInt (pos_value 10 (map dval A))));
+          mkTok (TConst [ch_dot; ch_dot]) (List.length A) (List.length A + 2) VNone;
+          mkTok TNum (List.length A + 2) (List.length A + 2 + List.length B)
+                (VLit (LInt (pos_value 10 (map dval B)))) ].
+Proof.
+  exact (fun sp al nu Hc => tokenise_range sp al nu gen_ctoks gen_atoks Hc
+                              atoks_are_the_alphabetic_ctoks ctoks_head_is_range).
+Qed.
+
+(* Keywords: "to" / "in" followed by nothing or a non-alphabetic character are the keyword
+   tokens; followed by an alphabetic character they start an identifier, which is longer than
+   the keyword when that character is an identifier character (a letter, or μ). *)
+Theorem C11_keyword_to : forall isspace isalpha isnumeric, classes_ok isspace isalpha isnumeric ->
+  forall rest, let kw := utf8_of_string "to" in
+  (next_not_alpha isalpha rest = true ->
+     ka_read_token isalpha isnumeric (kw ++ rest) = RTok (TConst kw) (List.length kw) VNone)
+  /\ (next_not_alpha isalpha rest = false ->
+        ka_read_token isalpha isnumeric (kw ++ rest)
+        = RTok TVar (List.length kw + List.length (takew ident_char rest))
+                    (VText (kw ++ takew ident_char rest))
+        /\ (forall c x, rest = c :: x -> ident_char c = true ->
+              List.length kw < List.length kw + List.length (takew ident_char rest))).
+Proof.
+  exact (fun sp al nu Hc rest =>
+    read_token_keyword sp al nu gen_ctoks gen_atoks Hc (utf8_of_string "to") rest
+      (proj1 keywords_nonempty) (proj1 keywords_are_letters) (scan_to al rest)).
+Qed.
+
+Theorem C11_keyword_in : forall isspace isalpha isnumeric, classes_ok isspace isalpha isnumeric ->
+  forall rest, let kw := utf8_of_string "in" in
+  (next_not_alpha isalpha rest = true ->
+     ka_read_token isalpha isnumeric (kw ++ rest) = RTok (TConst kw) (List.length kw) VNone)
+  /\ (next_not_alpha isalpha rest = false ->
+        ka_read_token isalpha isnumeric (kw ++ rest)
+        = RTok TVar (List.length kw + List.length (takew ident_char rest))
+                    (VText (kw ++ takew ident_char rest))
+        /\ (forall c x, rest = c :: x -> ident_char c = true ->
+              List.length kw < List.length kw + List.length (takew ident_char rest))).
+Proof.
+  exact (fun sp al nu Hc rest =>
+    read_token_keyword sp al nu gen_ctoks gen_atoks Hc (utf8_of_string "in") rest
+      (proj2 keywords_nonempty) (proj1 (proj2 keywords_are_letters)) (scan_in al rest)).
+Qed.
+
+(* Unclosed string / instant: the reported index is the index of the opening delimiter, and
+   no closing delimiter follows it; conversely an opening delimiter without a closing one is
+   reported at its own index. *)
+Theorem C11_unclosed_string : forall isspace isalpha isnumeric s i,
+  ka_tokenise isspace isalpha isnumeric s = LErr UnclosedStringError i ->
+  nth_error s i = Some ch_quote /\ str_end (skipn (S i) s) = None.
+Proof. exact (fun sp al nu => tokenise_unclosed_string sp al nu gen_ctoks gen_atoks ctoks_nonempty). Qed.
+
+Theorem C11_unclosed_instant : forall isspace isalpha isnumeric s i,
+  ka_tokenise isspace isalpha isnumeric s = LErr UnclosedInstantError i ->
+  nth_error s i = Some ch_hash /\ ~ In ch_hash (skipn (S i) s).
+Proof. exact (fun sp al nu => tokenise_unclosed_instant sp al nu gen_ctoks gen_atoks ctoks_nonempty). Qed.
+
+Theorem C11_unclosed : forall isspace isalpha isnumeric, classes_ok isspace isalpha isnumeric ->
+  forall W t, Forall (fun c => isspace c = true) W ->
+  (str_end t = None ->
+     ka_tokenise isspace isalpha isnumeric (W ++ ch_quote :: t) = LErr UnclosedStringError (List.length W))
+  /\ (~ In ch_hash t ->
+     ka_tokenise isspace isalpha isnumeric (W ++ ch_hash :: t) = LErr UnclosedInstantError (List.length W)).
+Proof. exact (fun sp al nu Hc => tokenise_reports_unclosed sp al nu gen_ctoks gen_atoks Hc). Qed.
+
+Theorem C11_no_quote_is_unclosed : forall t, ~ In ch_quote t -> str_end t = None.
+Proof. exact str_end_no_quote. Qed.
+
+(* The three regex pattern strings of tokens.py are literally the ones the automaton implements. *)
+Theorem C11_regexes_pinned :
+  GenTokens.var_regex = "[a-zA-Zμ€$£¥][_a-zA-Z0-9μ€$£¥]*"%string
+  /\ GenTokens.based_int_regex = "0(x|o|b|d)([0-9a-fA-F]+)"%string
+  /\ GenTokens.num_regex_flags = 96%Z.
+Proof. exact (conj var_regex_pinned (conj based_int_regex_pinned (proj2 num_regex_pinned))). Qed.
+
+(* The hypothesis of the theorems above is satisfiable: a concrete triple of classes (Latin-1
+   whitespace; letters, μ, é alphabetic; digits and ² numeric) satisfies it at every code point. *)
+Theorem C11_hypothesis_satisfiable : classes_ok w_space w_alpha w_numeric.
+Proof. exact classes_ok_witness. Qed.
+
+(* Non-vacuity: the model run on concrete inputs (rendered by Lexer.show_lres:
+   tag,begin,end,value; C<k> = k-th constant token; T:<code points>). *)
+Local Open Scope string_scope.
+Example C11_ex_range : ex_lex "12..345" = "K N,0,2,I:12 C0,2,4,- N,4,7,I:345".
+Proof. vm_compute. reflexivity. Qed.
+Example C11_ex_keywords :
+  ex_lex "in t" = "K C29,0,2,- V,3,4,T:116" /\ ex_lex "int" = "K V,0,3,T:105.110.116"
+  /\ ex_lex "to1" = "K C24,0,2,- N,2,3,I:1" /\ ex_lex "toé" = "E UnknownTokenError 2"
+  /\ ex_lex "5μm" = "K N,0,1,I:5 V,1,3,T:956.109".
+Proof. vm_compute. repeat split. Qed.
+Example C11_ex_values :
+  ex_lex "0x1F" = "K N,0,4,I:31" /\ ex_lex "0b102" = "E BadNumberError 0" /\ ex_lex "0b0b1" = "E BadNumberError 0"
+  /\ ex_lex "1.5e3" = "K N,0,5,X:1500/1" /\ ex_lex "25e-3" = "K N,0,5,F:1/40" /\ ex_lex "10e-1" = "K N,0,5,F:1/1"
+  /\ ex_lex "1.23457e+06" = "K N,0,11,X:1234570/1" /\ ex_lex "15.0e308" = "E BadNumberError 0"
+  /\ ex_lex "1." = "K N,0,2,X:1/1" /\ ex_lex "1e+" = "K N,0,1,I:1 V,1,2,T:101 C14,2,3,-".
+Proof. vm_compute. repeat split. Qed.
+Example C11_ex_unclosed :
+  ex_lex " ""abc" = "E UnclosedStringError 1" /\ ex_lex "x #2024" = "E UnclosedInstantError 2"
+  /\ ex_lex """a\""b""" = "K S,0,6,T:97.92.34.98".
+Proof. vm_compute. repeat split. Qed.
+Example C11_ex_ws :
+  ex_lex "x<=1..n" = "K V,0,1,T:120 C6,1,3,- N,3,4,I:1 C0,4,6,- V,6,7,T:110"
+  /\ ex_lex "x <=  1 .. n " = "K V,0,1,T:120 C6,2,4,- N,6,7,I:1 C0,8,10,- V,11,12,T:110".
+Proof. vm_compute. repeat split. Qed.
+
+Print Assumptions C11_total.
+Print Assumptions C11_faithful.
+Print Assumptions C11_ws_insensitive.
+Print Assumptions C11_ws_insensitive_iter.
+Print Assumptions C11_table_prefix_order.
+Print Assumptions C11_longest_const.
+Print Assumptions C11_maximal_munch.
+Print Assumptions C11_maximal_munch_ident.
+Print Assumptions C11_maximal_munch_number.
+Print Assumptions C11_int_value.
+Print Assumptions C11_based_value.
+Print Assumptions C11_sci_value.
+Print Assumptions C11_decimal_value_partial.
+Print Assumptions C11_decimal_sci_value_partial.
+Print Assumptions C11_range_lex.
+Print Assumptions C11_keyword_to.
+Print Assumptions C11_keyword_in.
+Print Assumptions C11_unclosed_string.
+Print Assumptions C11_unclosed_instant.
+Print Assumptions C11_unclosed.
+Print Assumptions C11_no_quote_is_unclosed.
+Print Assumptions C11_regexes_pinned.
+Print Assumptions C11_hypothesis_satisfiable.
